@@ -206,6 +206,31 @@ fn check_case(ctx: &Ctx, civ: &Civil, tm: &Terms, birth: i64, man: bool, loc: &m
             let x = f0.next(j);
             f.push(format!("year{}:{}:{}:{}", j, x.get_sixty_cycle().get_name(), x.get_age(), x.get_sixty_cycle_year().get_year()));
           }
+          // the remaining getters: gender, ages, the decade the limit itself belongs to (index -1), a decade's first yearly
+          // fortune, the fortune's name, and the deprecated lunar-year getters (= sexagenary-year getters shifted by the
+          // birth's lunar-year offset)
+          #[allow(deprecated)]
+          {
+            let off = cl.get_start_time().get_lunar_hour().get_year() - cl.get_start_time().get_year();
+            let d2 = d0.next(2);
+            let x3 = f0.next(3);
+            let pre = cl.get_decade_fortune();
+            let sf = d2.get_start_fortune();
+            let mut extra: Vec<(&str, String, String)> = Vec::new();
+            extra.push(("get_gender", format!("{:?}", cl.get_gender() == gender), "true".into()));
+            extra.push(("get_start_age/get_end_age", format!("{} {}", cl.get_start_age(), cl.get_end_age()), format!("1 {}", (end_year - birth_year).max(1))));
+            extra.push(("get_decade_fortune", format!("{} {}", pre.get_index(), pre.next(1).get_sixty_cycle().get_name()), format!("-1 {}", d0.get_sixty_cycle().get_name())));
+            extra.push(("DecadeFortune::get_start_fortune", format!("{} {} {}", sf.get_index(), sf.get_age(), sf.get_sixty_cycle_year().get_year()), format!("20 {} {}", d2.get_start_age(), d2.get_start_sixty_cycle_year().get_year())));
+            extra.push(("Fortune::get_name", x3.get_name(), x3.get_sixty_cycle().get_name()));
+            extra.push(("ChildLimit::get_end_lunar_year", cl.get_end_lunar_year().get_year().to_string(), (cl.get_end_sixty_cycle_year().get_year() + off).to_string()));
+            extra.push(("DecadeFortune::get_start_lunar_year/get_end_lunar_year", format!("{} {}", d2.get_start_lunar_year().get_year(), d2.get_end_lunar_year().get_year()), format!("{} {}", d2.get_start_sixty_cycle_year().get_year() + off, d2.get_end_sixty_cycle_year().get_year() + off)));
+            extra.push(("Fortune::get_lunar_year", x3.get_lunar_year().get_year().to_string(), (x3.get_sixty_cycle_year().get_year() + off).to_string()));
+            for (what, got, want) in extra {
+              if got != want {
+                f.push(format!("GETTER {}: {} (model {})", what, got, want));
+              }
+            }
+          }
           let ec = cl.get_eight_char();
           (o, Some((end_year, birth_year, f, ec.get_month().get_name(), ec.get_hour().get_name(), ec.get_name())))
         }
